@@ -21,6 +21,8 @@ func TestMakeExemplars(t *testing.T) {
 		{Name: "F8-cut-on-empty-string", Body: MCall(MCall(Str(" "), "trim"), "cut", Int(0), Int(1))},
 		{Name: "F5a-merge-operand-continues-behind-its-error", Body: MCall(MCall(List(Int(1), Int(2), Int(3)), "merge",
 			MCall(List(Str("a"), Int(1), Int(2), Int(3)), "iir", lam("e", e), lam("a,b", Bin("+", a, b))), lam("a,b", Bin("<", a, b))), "first")},
+		{Name: "cross-replays-a-lazy-stateful-operand", Body: MCall(List(Int(10), Int(20), Int(30)), "cross",
+			MCall(MCall(List(Int(5), Int(6)), "number", lam("a,b", Bin("+", Bin("*", a, Int(100)), b))), "iir", lam("e", e), lam("a,b", Bin("+", a, b))), lam("a,b", Bin("+", a, b)))},
 		{Name: "F25-groupByEqual-on-list-keys", Body: MCall(List(List(Int(1)), List(Int(2)), List(Int(1))), "groupByEqual", lam("e", e))},
 	}
 	for _, ex := range exs {
